@@ -255,6 +255,8 @@ class FluxInterface_0260(FluxInterface):
     def state(state):
         if state == "D":
             return State.PENDING
+        elif state == "P":      # PRIORITY, also part of flux's pending virtual state
+            return State.PENDING
         elif state == "S":
             return State.QUEUED
         elif state == "R":
